@@ -91,10 +91,14 @@ def equatorial2ecliptical (right_ascension declination obliquity : Num) : PyRes 
   let ra := a_rad right_ascension
   let dec := a_rad declination
   let eps := a_rad obliquity
-  -- lon = atan2((sin(ra) * cos(eps) + tan(dec) * sin(eps)), cos(ra))
-  let lon := patan2 (psin ra * pcos eps + ptan dec * psin eps) (pcos ra)
-  -- lat = asin(sin(dec) * cos(eps) - cos(dec) * sin(eps) * sin(ra))
-  let lat ← m_asin (psin dec * pcos eps - pcos dec * psin eps * psin ra)
+  -- x = cos(dec) * cos(ra); y = cos(dec) * sin(ra) * cos(eps) + sin(dec) * sin(eps)
+  let x := pcos dec * pcos ra
+  let y := pcos dec * psin ra * pcos eps + psin dec * psin eps
+  -- z = sin(dec) * cos(eps) - cos(dec) * sin(eps) * sin(ra)
+  let z := psin dec * pcos eps - pcos dec * psin eps * psin ra
+  -- lon = atan2(y, x); lat = atan2(z, sqrt(x * x + y * y))
+  let lon := patan2 y x
+  let lat := patan2 z (psqrt (x * x + y * y))
   -- lon = Angle(lon, radians=True); lon = lon.to_positive(); lat = Angle(lat, radians=True)
   pure (a_to_positive (a_of_rad lon), a_of_rad lat)
 
@@ -103,10 +107,14 @@ def ecliptical2equatorial (longitude latitude obliquity : Num) : PyRes (Num × N
   let lon := a_rad longitude
   let lat := a_rad latitude
   let eps := a_rad obliquity
-  -- ra = atan2((sin(lon) * cos(eps) - tan(lat) * sin(eps)), cos(lon))
-  let ra := patan2 (psin lon * pcos eps - ptan lat * psin eps) (pcos lon)
-  -- dec = asin(sin(lat) * cos(eps) + cos(lat) * sin(eps) * sin(lon))
-  let dec ← m_asin (psin lat * pcos eps + pcos lat * psin eps * psin lon)
+  -- x = cos(lat) * cos(lon); y = cos(lat) * sin(lon) * cos(eps) - sin(lat) * sin(eps)
+  let x := pcos lat * pcos lon
+  let y := pcos lat * psin lon * pcos eps - psin lat * psin eps
+  -- z = sin(lat) * cos(eps) + cos(lat) * sin(eps) * sin(lon)
+  let z := psin lat * pcos eps + pcos lat * psin eps * psin lon
+  -- ra = atan2(y, x); dec = atan2(z, sqrt(x * x + y * y))
+  let ra := patan2 y x
+  let dec := patan2 z (psqrt (x * x + y * y))
   pure (a_to_positive (a_of_rad ra), a_of_rad dec)
 
 /-- `equatorial2horizontal(hour_angle, declination, geo_latitude)` (Coordinates.py:1012). -/
@@ -114,10 +122,14 @@ def equatorial2horizontal (hour_angle declination geo_latitude : Num) : PyRes (N
   let h := a_rad hour_angle
   let dec := a_rad declination
   let lat := a_rad geo_latitude
-  -- azi = atan2(sin(h), (cos(h) * sin(lat) - tan(dec) * cos(lat)))
-  let azi := patan2 (psin h) (pcos h * psin lat - ptan dec * pcos lat)
-  -- ele = asin(sin(lat) * sin(dec) + cos(lat) * cos(dec) * cos(h))
-  let ele ← m_asin (psin lat * psin dec + pcos lat * pcos dec * pcos h)
+  -- x = cos(dec) * cos(h) * sin(lat) - sin(dec) * cos(lat); y = cos(dec) * sin(h)
+  let x := pcos dec * pcos h * psin lat - psin dec * pcos lat
+  let y := pcos dec * psin h
+  -- z = sin(lat) * sin(dec) + cos(lat) * cos(dec) * cos(h)
+  let z := psin lat * psin dec + pcos lat * pcos dec * pcos h
+  -- azi = atan2(y, x); ele = atan2(z, sqrt(x * x + y * y))
+  let azi := patan2 y x
+  let ele := patan2 z (psqrt (x * x + y * y))
   pure (a_of_rad azi, a_of_rad ele)
 
 /-- `horizontal2equatorial(azimuth, elevation, geo_latitude)` (Coordinates.py:1074). -/
@@ -125,10 +137,14 @@ def horizontal2equatorial (azimuth elevation geo_latitude : Num) : PyRes (Num ×
   let azi := a_rad azimuth
   let ele := a_rad elevation
   let lat := a_rad geo_latitude
-  -- h = atan2(sin(azi), (cos(azi) * sin(lat) + tan(ele) * cos(lat)))
-  let h := patan2 (psin azi) (pcos azi * psin lat + ptan ele * pcos lat)
-  -- dec = asin(sin(lat) * sin(ele) - cos(lat) * cos(ele) * cos(azi))
-  let dec ← m_asin (psin lat * psin ele - pcos lat * pcos ele * pcos azi)
+  -- x = cos(ele) * cos(azi) * sin(lat) + sin(ele) * cos(lat); y = cos(ele) * sin(azi)
+  let x := pcos ele * pcos azi * psin lat + psin ele * pcos lat
+  let y := pcos ele * psin azi
+  -- z = sin(lat) * sin(ele) - cos(lat) * cos(ele) * cos(azi)
+  let z := psin lat * psin ele - pcos lat * pcos ele * pcos azi
+  -- h = atan2(y, x); dec = atan2(z, sqrt(x * x + y * y))
+  let h := patan2 y x
+  let dec := patan2 z (psqrt (x * x + y * y))
   pure (a_of_rad h, a_of_rad dec)
 
 /-- `equatorial2galactic(right_ascension, declination)` (Coordinates.py:1130). -/
@@ -140,14 +156,19 @@ def equatorial2galactic (right_ascension declination : Num) : PyRes (Num × Num)
   let c1ra := c1 - ra
   -- c2 = Angle(27.4); c2 = c2.rad()
   let c2 := a_rad (a_reduce 27.4)
-  -- x = atan2(sin(c1ra), (cos(c1ra) * sin(c2) - tan(dec) * cos(c2)))
-  let x := patan2 (psin c1ra) (pcos c1ra * psin c2 - ptan dec * pcos c2)
+  -- xx = cos(dec) * cos(c1ra) * sin(c2) - sin(dec) * cos(c2); yy = cos(dec) * sin(c1ra)
+  let xx := pcos dec * pcos c1ra * psin c2 - psin dec * pcos c2
+  let yy := pcos dec * psin c1ra
+  -- zz = sin(dec) * sin(c2) + cos(dec) * cos(c2) * cos(c1ra)
+  let zz := psin dec * psin c2 + pcos dec * pcos c2 * pcos c1ra
+  -- x = atan2(yy, xx)
+  let x := patan2 yy xx
   -- lon = Angle(-x, radians=True); lon = 303.0 + lon; lon = lon.to_positive()
   let lon := a_of_rad (-x)
   let lon := a_add lon 303.0
   let lon := a_to_positive lon
-  -- lat = asin(sin(dec) * sin(c2) + cos(dec) * cos(c2) * cos(c1ra))
-  let lat ← m_asin (psin dec * psin c2 + pcos dec * pcos c2 * pcos c1ra)
+  -- lat = atan2(zz, sqrt(xx * xx + yy * yy))
+  let lat := patan2 zz (psqrt (xx * xx + yy * yy))
   pure (lon, a_of_rad lat)
 
 /-- `galactic2equatorial(longitude, latitude)` (Coordinates.py:1177). -/
@@ -158,41 +179,62 @@ def galactic2equatorial (longitude latitude : Num) : PyRes (Num × Num) := do
   let c1 := a_rad (a_reduce 123.0)
   let c2 := a_rad (a_reduce 27.4)
   let lc1 := lon - c1
-  -- y = atan2(sin(lc1), (cos(lc1) * sin(c2) - tan(lat) * cos(c2)))
-  let y := patan2 (psin lc1) (pcos lc1 * psin c2 - ptan lat * pcos c2)
+  -- xx = cos(lat) * cos(lc1) * sin(c2) - sin(lat) * cos(c2); yy = cos(lat) * sin(lc1)
+  let xx := pcos lat * pcos lc1 * psin c2 - psin lat * pcos c2
+  let yy := pcos lat * psin lc1
+  -- zz = sin(lat) * sin(c2) + cos(lat) * cos(c2) * cos(lc1)
+  let zz := psin lat * psin c2 + pcos lat * pcos c2 * pcos lc1
+  -- y = atan2(yy, xx)
+  let y := patan2 yy xx
   -- y = Angle(y, radians=True); ra = y + 12.25; ra.to_positive()   (to_positive mutates `ra`)
   let ra := a_to_positive (a_add (a_of_rad y) 12.25)
-  -- dec = asin(sin(lat) * sin(c2) + cos(lat) * cos(c2) * cos(lc1))
-  let dec ← m_asin (psin lat * psin c2 + pcos lat * pcos c2 * pcos lc1)
+  -- dec = atan2(zz, sqrt(xx * xx + yy * yy))
+  let dec := patan2 zz (psqrt (xx * xx + yy * yy))
   pure (ra, a_of_rad dec)
 
 /-! ### Separation, position angle, alignment, enclosing circle -/
 
-/-- the nested `hav(theta)` of `angular_separation`: `(1.0 - cos(theta)) / 2.0`. -/
-def hav (theta : Num) : Num := (1.0 - pcos theta) / 2.0
-
-/-- `angular_separation(alpha1, delta1, alpha2, delta2)` (Coordinates.py:1695). -/
+/-- `angular_separation(alpha1, delta1, alpha2, delta2)` (Coordinates.py), Meeus' x, y, z formula. -/
 def angular_separation (alpha1 delta1 alpha2 delta2 : Num) : PyRes Num := do
-  -- dalpha = alpha1 - alpha2; dalpha = dalpha.rad(); ddelta = delta1 - delta2; ddelta = ddelta.rad()
+  -- dalpha = alpha1 - alpha2; dalpha = dalpha.rad(); d1 = delta1.rad(); d2 = delta2.rad()
   let dalpha := a_rad (a_sub alpha1 alpha2)
-  let ddelta := a_rad (a_sub delta1 delta2)
   let d1 := a_rad delta1
   let d2 := a_rad delta2
-  -- theta = 2.0 * asin(sqrt(hav(ddelta) + cos(d1) * cos(d2) * hav(dalpha)))
-  let r ← m_sqrt (hav ddelta + pcos d1 * pcos d2 * hav dalpha)
-  let s ← m_asin r
-  let theta := 2.0 * s
+  -- x = cos(d1) * sin(d2) - sin(d1) * cos(d2) * cos(dalpha); y = cos(d2) * sin(dalpha)
+  let x := pcos d1 * psin d2 - psin d1 * pcos d2 * pcos dalpha
+  let y := pcos d2 * psin dalpha
+  -- z = sin(d1) * sin(d2) + cos(d1) * cos(d2) * cos(dalpha)
+  let z := psin d1 * psin d2 + pcos d1 * pcos d2 * pcos dalpha
+  -- theta = atan2(sqrt(x * x + y * y), z); theta = Angle(theta, radians=True)
+  let theta := patan2 (psqrt (x * x + y * y)) z
   pure (a_of_rad theta)
 
-/-- `relative_position_angle(alpha1, delta1, alpha2, delta2)` (Coordinates.py:1919). -/
+/-- `relative_position_angle(alpha1, delta1, alpha2, delta2)` (Coordinates.py). -/
 def relative_position_angle (alpha1 delta1 alpha2 delta2 : Num) : Num :=
-  -- da = alpha1 - alpha2; da = da.rad(); d1 = delta1.rad(); d2 = delta2.rad()
-  let da := a_rad (a_sub alpha1 alpha2)
+  -- da = alpha1() - alpha2()
+  let da0 := alpha1 - alpha2
+  -- if abs(da) > 180.0: turn = 360.0 if da > 0.0 else -360.0
+  --     if abs(alpha1()) >= abs(alpha2()): da = (alpha1() - turn) - alpha2()  else: da = alpha1() - (alpha2() + turn)
+  let da1 : Num :=
+    if plt 180.0 (pabs da0) then
+      let turn : Num := if plt 0.0 da0 then 360.0 else -360.0
+      if ple (pabs alpha2) (pabs alpha1) then (alpha1 - turn) - alpha2 else alpha1 - (alpha2 + turn)
+    else da0
+  -- da = radians(da); dd = radians(delta1() - delta2()); d1 = delta1.rad(); d2 = delta2.rad()
+  let da := pradians da1
+  let dd := pradians (delta1 - delta2)
   let d1 := a_rad delta1
   let d2 := a_rad delta2
-  -- p = atan2(sin(da), (cos(d2) * tan(d1) - sin(d2) * cos(da)))
-  let p := patan2 (psin da) (pcos d2 * ptan d1 - psin d2 * pcos da)
+  -- s = sin(da / 2.0); north = sin(dd) + 2.0 * sin(d2) * cos(d1) * s * s
+  let s := psin (da / 2.0)
+  let north := psin dd + 2.0 * psin d2 * pcos d1 * s * s
+  -- p = atan2(cos(d1) * sin(da), north)
+  let p := patan2 (pcos d1 * psin da) north
   a_of_rad p
+
+/-- Python `min(a, b)` / `max(a, b)` on floats: the second argument only if it is strictly smaller / larger. -/
+def pmin2 (a b : Num) : Num := if plt b a then b else a
+def pmax2 (a b : Num) : Num := if plt a b then b else a
 
 /-- `min(a)` / `max(a)` of a float list, CPython's left-to-right scan (`m` = first element). -/
 def listMin : List Num → Num → Num
@@ -248,11 +290,13 @@ def straight_line (alpha1 delta1 alpha2 delta2 alpha3 delta3 : Num) : PyRes (Num
   -- psi = acos((l1*l2 + m1*m2 + n1*n2) / (sqrt(l1*l1 + m1*m1 + n1*n1) * sqrt(l2*l2 + m2*m2 + n2*n2)))
   let q1 ← m_div (l1 * l2 + m1 * m2 + n1 * n2)
               (psqrt (l1 * l1 + m1 * m1 + n1 * n1) * psqrt (l2 * l2 + m2 * m2 + n2 * n2))
-  let psi ← m_acos q1
+  -- psi = acos(max(-1.0, min(1.0, cos_psi)))
+  let psi ← m_acos (pmax2 (-1.0) (pmin2 1.0 q1))
   -- omega = asin((a2*l3 + b2*m3 + c2*n3) / (sqrt(a2*a2 + b2*b2 + c2*c2) * sqrt(l3*l3 + m3*m3 + n3*n3)))
   let q2 ← m_div (a2 * l3 + b2 * m3 + c2 * n3)
               (psqrt (a2 * a2 + b2 * b2 + c2 * c2) * psqrt (l3 * l3 + m3 * m3 + n3 * n3))
-  let omega ← m_asin q2
+  -- omega = asin(max(-1.0, min(1.0, sin_omega)))
+  let omega ← m_asin (pmax2 (-1.0) (pmin2 1.0 q2))
   pure (a_of_rad psi, a_of_rad omega)
 
 /-- `circle_diameter(alpha1, delta1, alpha2, delta2, alpha3, delta3)` (Coordinates.py:2356). -/
